@@ -431,7 +431,26 @@ func handleOne(rq wproto.Req, alone bool) (rp wproto.Rep) {
 			opts = append(opts, optOf(t, jail, octx))
 		}
 	} else if rq.Target != "" {
-		opts = append(opts, gtree.WithTargetDir(rq.Target))
+		target := rq.Target
+		if rq.TargetSpell != "" && alone {
+			// the same directory, spelled differently and relative to the current directory
+			dir := filepath.Dir(rq.Target)
+			p, t := filepath.Base(dir), filepath.Base(rq.Target)
+			if old, err := os.Getwd(); err == nil && os.Chdir(filepath.Dir(dir)) == nil {
+				defer os.Chdir(old)
+				switch rq.TargetSpell {
+				case "slash":
+					target = p + "/" + t + "/"
+				case "dot":
+					target = "./" + p + "/" + t
+				case "dslash":
+					target = p + "//" + t
+				case "dotin":
+					target = p + "/./" + t
+				}
+			}
+		}
+		opts = append(opts, gtree.WithTargetDir(target))
 	} else if rq.Jail || rq.Op == "mkdir" || rq.Op == "verify" {
 		var err error
 		jail, err = os.MkdirTemp("", "verif-jail-")
